@@ -74,7 +74,7 @@ type c06GenState struct {
 	masks     []int32 // effective masks of the plugins registered so far
 	idxs      []string
 	gone      []bool // stopped (or made slow) by an earlier step
-	vetoEvent int32   // event of the most recent veto step (steers the next request)
+	vetoEvent int32  // event of the most recent veto step (steers the next request)
 	pool      []string
 }
 
@@ -287,8 +287,8 @@ type c06Plugin struct {
 	// the runtime closed the connection although the plugin was neither stopped nor slow
 	ClosedByRuntime bool   `json:"closed_by_runtime,omitempty"`
 	RegErr          string `json:"reg_err,omitempty"`
-	Refused   bool   `json:"refused,omitempty"`
-	TimedOut  bool   `json:"timed_out,omitempty"`
+	Refused         bool   `json:"refused,omitempty"`
+	TimedOut        bool   `json:"timed_out,omitempty"`
 
 	fp *fx.Plugin
 }
